@@ -123,6 +123,7 @@ static void gen_history(Rng &r, Plan &p, int mode, bool c04) {
   } else if (mode == 9) {  // one failing call of the daemon on a named kind of queue file, early in that file's use (rare paths: pqadd, getinfo, markdone, addbounce, injectbounce, job_close)
     Fault f; f.actor = "qmail-send"; f.path = r.pick(std::vector<std::string>{"/bounce/", "/info/", "/local/", "/remote/", "/mess/", "/todo/"});
     f.call = r.pick(std::vector<CallId>{C_STAT, C_OPEN, C_READ, C_WRITE, C_FSYNC, C_UNLINK, C_UTIMES});
+    if (r.chance(0.2)) { f.path = "/bounce/"; f.call = C_READ; }   // the record being copied into the bounce: the read that ends the copy early
     bool twice = r.chance(0.25);   // the daemon's look at a channel file fails twice in a row: when a job closes it asks whether the other channel still has work, and asks again, more carefully, before it declares the message done
     if (twice) { f.call = C_STAT; f.path = r.chance(0.5) ? "/remote/" : "/local/"; }
     f.nth = (int)r.range(1, 4); if (twice) f.nth = (int)r.range(1, 8); f.kind = "error"; f.err = r.pick(std::vector<int>{EIO, ENOMEM, ENFILE, EACCES, EINTR, EINTR});   // (EINTR: the daemon's handlers are installed without SA_RESTART; an interrupted fsync or write has not happened)
